@@ -18,7 +18,9 @@ import json
 import os
 import random
 
-from common import MachineryFailure
+import concurrent.futures as cf
+
+from common import NCPU, MachineryFailure
 
 CHUNK = 30000
 # which of the proposed repairs (fixes/C17-*.patch) the tree under test carries: selects the matching
@@ -30,7 +32,7 @@ def _key(r):
     k = {"fam": r["fam"], "clause": r["cl"], "route": r["route"], "dtype": r["d"]}
     k["vclass"] = r["vc"]
     k["factor"] = "up" if r["k"] > 0 else "down"
-    if r["fam"] == "ufunc":
+    if r["fam"] in ("ufunc", "comb"):
         k["dtype1"] = r["d1"]
         k["out"] = "none" if r["out"] == "none" else ("inplace" if r["out"] == "inplace" else "buffer")
     else:
@@ -38,26 +40,36 @@ def _key(r):
     return k
 
 
+def _validate_chunk(ck, part, label, off):
+    path = ck.write_json(f"obs_{label}_{off}.json", part)
+    res = ck.tlc("Trace_C17", env={"OBS": path}, workers=1, coverage=False, label=f"trace validation {label} [{off}:{off + len(part)}]", timeout=3000)
+    if res.distinct != len(part) + 1:
+        raise MachineryFailure(f"trace validation consumed {res.distinct} states, expected {len(part) + 1}")
+    if res.by_tag("ORACLE"):
+        r = res.by_tag("ORACLE")[0]
+        raise MachineryFailure("harness rounding flags disagree with TLC's exact arithmetic on " + json.dumps(part[r["i"] - 1])[:800])
+    return res
+
+
 def _validate(ck, obs, label):
+    """TLC evaluates P and T on every observation; chunks run concurrently, verdicts are reported in case order."""
     n_p = 0
-    for off in range(0, len(obs), CHUNK):
-        part = obs[off : off + CHUNK]
-        path = ck.write_json(f"obs_{label}_{off}.json", part)
-        res = ck.tlc("Trace_C17", env={"OBS": path}, workers=1, coverage=False, label=f"trace validation {label} [{off}:{off + len(part)}]", timeout=3000)
-        if res.distinct != len(part) + 1:
-            raise MachineryFailure(f"trace validation consumed {res.distinct} states, expected {len(part) + 1}")
-        if res.by_tag("ORACLE"):
-            r = res.by_tag("ORACLE")[0]
-            raise MachineryFailure("harness rounding flags disagree with TLC's exact arithmetic on " + json.dumps(part[r["i"] - 1])[:800])
+    njobs = max(1, min(NCPU // 2, 8))
+    chunk = max(2000, min(CHUNK, -(-len(obs) // njobs)))
+    offs = list(range(0, len(obs), chunk))
+    with cf.ThreadPoolExecutor(max_workers=njobs) as ex:
+        results = list(ex.map(lambda off: _validate_chunk(ck, obs[off : off + chunk], label, off), offs))
+    for off, res in zip(offs, results):
+        part = obs[off : off + chunk]
         ck.validated(len(part))
-        for r in res.by_tag("T-FAIL"):
+        for r in sorted(res.by_tag("T-FAIL"), key=lambda r: r["i"]):
             c = part[r["i"] - 1]["c"]
             ck.drift_step(r["route"], {"case": _short(c), "model": r["model"], "observed": r["observed"]})
-        for r in res.by_tag("P-FAIL"):
+        for r in sorted(res.by_tag("P-FAIL"), key=lambda r: (r["i"], r["route"], r["cl"])):
             ent = part[r["i"] - 1]
             c = ent["c"]
             o = ent["o"]
-            side = o if c["fam"] == "ufunc" else (o["c"] if r["route"] == c["route"] else o["i"])
+            side = o if c["fam"] in ("ufunc", "comb") else (o["c"] if r["route"] == c["route"] else o["i"])
             detail = {"case": _short(c), "observed": _oshort(side)}
             if r["cl"] == "C17c":
                 detail["observed_inplace"] = _oshort(o["i"])
@@ -74,6 +86,8 @@ def _short(c):
     if c["fam"] == "conv":
         fac = f"{impl_units(c['from'])}->{impl_units(c['to'])}" if c.get("real") else f"x2^{c['k']}"
         return f"{c['route']}/{c['twin']} {c['d']} {c['vc']} {'scalar' if c['shape'] == 'q' else 'array'} {fac}"
+    if c["fam"] == "comb":
+        return f"{c['form']} {c['op']} array {c['d0']}[u{c['ua']}] {c['va'][1]} / elements {c['d1']} [u{c['uf']}, u{c['us']}] {c['vc1']}"
     return f"np.{c['op']} {c['d0']}[u{c['u0']}] {c['d1']}[u{c['u1']}] {c['vc0']},{c['vc1']} {c['shape']} out={c['out']} x2^{c['k']}"
 
 
@@ -117,10 +131,19 @@ def run(ck):
         cfg = cfg + "_fixes"
         open(ck.spec + f"/{cfg}.cfg", "w").write(text)
         ck.assumptions.append("transcription switches for repaired trees: " + ",".join(fixes))
-    res = ck.tlc("MC_C17", cfg, workers=1, label=f"case table {cfg} (export + model-level invariants)", required_actions=["Next"], timeout=3000)
-    cases = [r for r in res.records if r.get("fam") in ("conv", "ufunc")]
-    if len(cases) != res.distinct - 1:
-        raise MachineryFailure(f"exported {len(cases)} cases but TLC found {res.distinct - 1}")
+    base = open(ck.spec + f"/{cfg}.cfg").read()
+    groups = ["FamsConv", "FamsUfunc", "FamsOut", "FamsComb"]
+
+    def export(g):
+        open(ck.spec + f"/{cfg}_{g}.cfg", "w").write(base.replace("Fams <- FamsAll", "Fams <- " + g))
+        r = ck.tlc("MC_C17", f"{cfg}_{g}", workers=1, label=f"case table {cfg} {g} (export + model-level invariants)", required_actions=["Next"], timeout=3000)
+        got = [x for x in r.records if x.get("fam") in ("conv", "ufunc", "comb")]
+        if len(got) != r.distinct - 1:
+            raise MachineryFailure(f"exported {len(got)} cases but TLC found {r.distinct - 1} ({g})")
+        return got
+
+    with cf.ThreadPoolExecutor(max_workers=len(groups)) as ex:
+        cases = [c for part in ex.map(export, groups) for c in part]
     if len(cases) < 1000:
         raise MachineryFailure("too few cases exported")
     # deterministic order (TLC's export order is already deterministic with one worker; make it canonical)
@@ -128,7 +151,7 @@ def run(ck):
     model_classes = sorted({(c["fam"], x["route"], x["cl"]) for c in cases for x in c["mfail"]})
     ck.cov["model_level_failing_classes"] = [list(x) for x in model_classes]
     ck.cov["exhaustive"] = True
-    ck.cov["bound"] = {"cfg": cfg, "cases": len(cases), "conv": sum(c["fam"] == "conv" and not c["real"] for c in cases), "conv_real_units": sum(c["fam"] == "conv" and c["real"] for c in cases), "ufunc": sum(c["fam"] == "ufunc" and c["out"] == "none" for c in cases), "ufunc_out": sum(c["fam"] == "ufunc" and c["out"] != "none" for c in cases)}
+    ck.cov["bound"] = {"cfg": cfg, "cases": len(cases), "conv": sum(c["fam"] == "conv" and not c["real"] for c in cases), "conv_real_units": sum(c["fam"] == "conv" and c["real"] for c in cases), "ufunc": sum(c["fam"] == "ufunc" and c["out"] == "none" for c in cases), "ufunc_out": sum(c["fam"] == "ufunc" and c["out"] != "none" for c in cases), "comb": sum(c["fam"] == "comb" for c in cases)}
     rnd = random.Random(ck.seed)
     ck.sample(_short(cases[rnd.randrange(len(cases))]))
     ck.sample(_short(cases[rnd.randrange(len(cases))]))
